@@ -595,3 +595,72 @@ Proof.
     apply Hn. split; [exact H13|]. cbn [runes map starts_lf]. apply Z.eqb_eq. exact H10.
   - injection E as -> -> ->. split; reflexivity.
 Qed.
+
+(* --- an offset at the end of a valid prefix, whatever bytes follow ------------------------------------------ *)
+(* (the usual situation of an error at an invalid byte: the text before it is valid, the rest need not be) *)
+Definition prefix_cursor (d : list Z) (pre : list cp) : input :=
+  with_start (with_pos (new_string d) (len (bytes pre)))
+             (len (bytes pre) - len (bytes (after_last brkc pre))).
+
+Lemma loop_prefix pre tail :
+  Forall cp_ok pre -> (ends_cr (runes pre) = true -> starts_lf tail = false) ->
+  pos_loop (length (buf (new_string (bytes pre ++ tail)))) (new_string (bytes pre ++ tail)) 1 (len (bytes pre)) =
+    Done (prefix_cursor (bytes pre ++ tail) pre, 1 + breaks (runes pre)).
+Proof.
+  intros Hpre Hcr.
+  set (d := bytes pre ++ tail). set (z0 := new_string d).
+  destruct (new_string_fields d) as (Hb & He & Hp & Hs). fold z0 in Hb, He, Hp, Hs.
+  pose proof (len_bytes_nonneg pre) as Hnp.
+  assert (Hfuel : exists m, length (buf z0) = (length pre + 1 + m)%nat).
+  { exists (length (buf z0) - (length pre + 1))%nat.
+    pose proof (length_le_bytes pre Hpre). rewrite Hb, app_length. unfold d. rewrite app_length. cbn [length].
+    unfold len in H. lia. }
+  destruct Hfuel as (m & Hm). rewrite Hm.
+  apply pos_loop_fuel_mono.
+  apply (loop_walk (length pre) pre (le_n _) [] tail z0 1 (len (bytes pre)) 1); try assumption.
+  - rewrite Hp, Hs. lia.
+  - rewrite Hp, Hs, Z.add_0_l, walk_start_0. unfold prefix_cursor. fold z0.
+    apply loop_stop. cbn [pos start with_start with_pos]. lia.
+Qed.
+
+Lemma prefix_cursor_facts pre tail :
+  Forall cp_ok pre ->
+  inv (bytes pre ++ tail) (prefix_cursor (bytes pre ++ tail) pre) /\
+  lexeme_bytes (prefix_cursor (bytes pre ++ tail) pre) = Some (bytes (after_last brkc pre)) /\
+  Forall cp_ok (after_last brkc pre).
+Proof.
+  intros Hpre. set (d := bytes pre ++ tail).
+  destruct (new_string_fields d) as (Hb & He & _ & _).
+  destruct (len_after_last_le pre) as (a & Ea & El).
+  assert (Hd : d = bytes a ++ bytes (after_last brkc pre) ++ tail).
+  { unfold d. rewrite Ea at 1. rewrite bytes_app, <- app_assoc. reflexivity. }
+  pose proof (len_bytes_nonneg a). pose proof (len_bytes_nonneg (after_last brkc pre)). pose proof (len_nonneg tail).
+  assert (Hinv : inv d (prefix_cursor d pre)).
+  { unfold inv, prefix_cursor. cbn [buf ierr start pos with_start with_pos]. split; [exact Hb|].
+    split; [intros Hne; contradiction|].
+    assert (len d = len (bytes pre) + len tail) by (unfold d; rewrite len_app; reflexivity). lia. }
+  split; [exact Hinv|]. split.
+  - rewrite (lexeme_bytes_inv _ _ Hinv). unfold prefix_cursor. cbn [start pos with_start with_pos].
+    f_equal. rewrite Hd. replace (len (bytes pre) - len (bytes (after_last brkc pre))) with (len (bytes a)) by lia.
+    rewrite El. apply slice_mid.
+  - rewrite Ea in Hpre. exact (Forall_app_r _ _ _ Hpre).
+Qed.
+
+Section Prefix.
+  Variable graphic : Z -> bool.
+
+  Theorem position_prefix_proof pre tail :
+    Forall cp_ok pre -> (ends_cr (runes pre) = true -> starts_lf tail = false) ->
+    exists ctx, position graphic (bytes pre ++ tail) (len (bytes pre)) =
+                  Done (1 + breaks (runes pre), 1 + len (last_line (runes pre)), ctx).
+  Proof.
+    intros Hpre Hcr. unfold position, position_input.
+    rewrite (loop_prefix pre tail Hpre Hcr).
+    destruct (prefix_cursor_facts pre tail Hpre) as (Hinv & Hlx & Hal).
+    rewrite Hlx. rewrite (go_runes_valid0 _ Hal). rewrite <- last_line_runes.
+    destruct (position_context_total graphic (bytes pre ++ tail) _ (1 + breaks (runes pre))
+                (len (last_line (runes pre)) + 1) Hinv) as (ctx & Ec).
+    { pose proof (len_nonneg (last_line (runes pre))). lia. }
+    rewrite Ec. exists ctx. f_equal. f_equal. f_equal. lia.
+  Qed.
+End Prefix.
